@@ -616,7 +616,12 @@ impl Value {
                                     .unwrap_or(Value::Null)
                                     .into(),
                                 (Value::String(str), Value::Int(idx)) => {
-                                    match str.get(idx as usize..(idx + 1) as usize) {
+                                    // a negative index, or one whose successor does not fit,
+                                    // is simply out of range
+                                    let range = usize::try_from(idx)
+                                        .ok()
+                                        .and_then(|start| Some(start..start.checked_add(1)?));
+                                    match range.and_then(|range| str.get(range)) {
                                         None => Ok(Value::Null),
                                         Some(str) => Ok(Value::String(str.to_string().into())),
                                     }
